@@ -1,4 +1,5 @@
 import Tw.Model.Gamenet
+import Tw.Model.GamenetCap
 import Tw.Gen.Spec_tw05
 import Tw.Gen.Spec_tw06
 import Tw.Gen.Spec_tw07
@@ -145,6 +146,21 @@ def handle (toks : List String) : String :=
       | some k => toString k
       | none => "none"
     | _, _ => "bad-op"
+  | ["bmsg", p, kind, name, val, cap] =>
+    match proto p, parseTop val, cap.toNat? with
+    | some p, some v, some cap =>
+      let sys := kind == "sys"
+      match findSpecByName name (if sys then p.system else p.game) with
+      | some s => encStr (encodeMsgCap cap sys s v)
+      | none => "bad-op"
+    | _, _, _ => "bad-op"
+  | ["bcl", p, name, val, cap] =>
+    match proto p, parseTop val, cap.toNat? with
+    | some p, some v, some cap =>
+      match findConnlessByName name p.connless with
+      | some s => encStr (encodeConnlessCap cap s v)
+      | none => "bad-op"
+    | _, _, _ => "bad-op"
   | ["bmsg", p, kind, name, val] =>
     match proto p, parseTop val with
     | some p, some v =>
